@@ -1,6 +1,11 @@
 import RichModel.Lemmas.LayoutBase
-import RichModel.Props.C02
-import RichModel.Props.C05
+import RichModel.Lemmas.Wrap
+import RichModel.Lemmas.WrapLine
+import RichModel.Lemmas.WrapDivide
+import RichModel.Lemmas.WrapFull
+import RichModel.Lemmas.WrapWhole
+import RichModel.Lemmas.TextRender
+import RichModel.Lemmas.TextJoin
 /-!
 The TEXT lemmas of the composition layer (C01 / C09): every line of a rendered text fits, a text whose `end` is the
 line feed ends its last line, what `Text.__rich_measure__` measures, and "a text given its measured maximum is never
